@@ -10,7 +10,9 @@
                 (the same kernel pair serves the LSR/DLSR form and the DLRR form)
    - sk_rjitter float64(jitter)/clockRate              one rounding: relative 2^-53
    - sk_frac    float64(fractionLost)/256.0            EXACT
-   - sk_units   uint32(Seconds()*clockRate)            = elapsed_kernel: all C07 bounds carry over *)
+   - sk_units   uint32(Seconds()*clockRate)            = elapsed_kernel: all C07 bounds carry over
+   - sk_jitter  J += (1/16) * (float64(d)/clockRate - J) finite, non-negative, bounded, within
+                2^-52 (d/rate + J) + 2^-1072 of the exact rational step *)
 From IV Require Import Base.Word Base.F64 Model.Ntp Model.SenderStream Model.StatsRecorder Model.StatsKernels
   Proofs.NtpFloatProofs Proofs.ReportFloatProofs.
 From Coq Require Import ZArith Reals Floats Uint63 Lia Lra.
@@ -18,17 +20,6 @@ From Flocq Require Import Core.Core IEEE754.BinarySingleNaN.
 Require Flocq.IEEE754.PrimFloat.
 Ltac Zify.zify_post_hook ::= Z.div_mod_to_equations.
 Open Scope R_scope.
-
-(* m * 2^e with |m| < 2^53 is a binary64 number: rounding it is the identity *)
-Lemma rnd64_scaled m e : (Z.abs m < 9007199254740992)%Z -> (-1074 <= e)%Z ->
-  rnd64 (IZR m * bpow radix2 e) = IZR m * bpow radix2 e.
-Proof.
-  intros Hm He. unfold rnd64. apply round_generic; auto with typeclass_instances.
-  apply generic_format_FLT. apply (FLT_spec radix2 (-1074) 53 _ (Float radix2 m e)).
-  - unfold F2R; simpl; ring.
-  - exact Hm.
-  - simpl; lia.
-Qed.
 
 Lemma bpow_m16 : bpow radix2 (-16) = / 65536. Proof. bp. Qed.
 Lemma bpow_m8 : bpow radix2 (-8) = / 256. Proof. bp. Qed.
@@ -200,4 +191,120 @@ Theorem sk_units_within_one_tick rate ns : 0 <= ns <= MaxDur -> 0 <= rate < 4294
 Proof.
   intros H1 H2. cbv zeta. intros H3. rewrite sk_units_is_elapsed.
   exact (proj2 (elapsed_kernel_nowrap ns rate H1 H2 H3)).
+Qed.
+
+(* ---------- sk_jitter: Jitter += (1.0/16.0) * (float64(d)/clockRate - Jitter) ---------- *)
+Open Scope R_scope.
+
+Lemma FR_c16th : FR 0.0625%float = / 16. Proof. fr_const. pow_const. lra. Qed.
+Lemma fin_c16th : fin 0.0625%float. Proof. unfold fin. rewrite <- fin_f64. reflexivity. Qed.
+Lemma bpow54 : bpow radix2 54 = 18014398509481984. Proof. bp. Qed.
+Lemma rnd64_2p54 : rnd64 18014398509481984 = 18014398509481984.
+Proof.
+  rewrite <- bpow54. replace (bpow radix2 54) with (IZR 1 * bpow radix2 54) by ring.
+  apply rnd64_scaled; lia.
+Qed.
+
+Lemma quot_rel a b : (0 <= a < 9007199254740992)%Z -> (0 < b < 9007199254740992)%Z ->
+  let x := IZR a / IZR b in
+  0 <= x < 9007199254740992 /\ x * (1 - / 9007199254740992) <= rnd64 x <= x * (1 + / 9007199254740992).
+Proof.
+  intros Ha Hb x. destruct (div_floor_exact a b Ha Hb) as (_ & X & _). fold x in X.
+  assert (K : IZR (a / b) + 1 <= 9007199254740992).
+  { rewrite <- (plus_IZR _ 1). apply IZR_le. assert (a / b <= a)%Z by (apply Z.div_le_upper_bound; nia). lia. }
+  split. lra. apply rel_nn.
+  destruct (Z.eq_dec a 0) as [E|NE].
+  - left. unfold x. rewrite E. lra.
+  - right. assert (1 <= IZR a) by (apply IZR_le; lia).
+    assert (B0 : 0 < IZR b) by (apply IZR_lt; lia).
+    assert (B1 : IZR b <= 9007199254740992) by (apply IZR_le; lia).
+    assert (XB : x * IZR b = IZR a) by (unfold x; field; lra).
+    apply Rmult_le_reg_r with (IZR b). exact B0. rewrite XB. lra.
+Qed.
+
+(* real-number model *)
+Definition sjE (j : R) (rate d : Z) : R := rnd64 (rnd64 (IZR d / IZR rate) - j).
+Definition sjQ (j : R) (rate d : Z) : R := rnd64 (/ 16 * sjE j rate d).
+Definition sjitR (j : R) (rate d : Z) : R := rnd64 (j + sjQ j rate d).
+
+Lemma sjit_analysis j rate d : (0 <= d < 9007199254740992)%Z -> (0 < rate < 9007199254740992)%Z ->
+  0 <= j <= 18014398509481984 -> rnd64 j = j ->
+  let x := IZR d / IZR rate in
+  Rabs (rnd64 x - j) <= 28000000000000000 /\
+  Rabs (/ 16 * sjE j rate d) <= 1800000000000000 /\
+  Rabs (j + sjQ j rate d) <= 20000000000000000 /\
+  0 <= sjitR j rate d <= 18014398509481984 /\
+  Rabs (sjitR j rate d - (j + (x - j) / 16)) <= / 4503599627370496 * (x + j) + 4 * eta.
+Proof.
+  intros Hd Hr Hj Hjr x.
+  assert (EP := eta_pos). assert (ES := eta_small).
+  destruct (quot_rel d rate Hd Hr) as [X0 DS]. cbv zeta in X0, DS. fold x in X0, DS.
+  set (ds := rnd64 x) in *.
+  set (M2 := x * (1 + / 9007199254740992) + j).
+  assert (X2 : Rabs (ds - j) <= M2) by (apply Rabs_le; unfold M2; lra).
+  assert (E := rnd64_relabs (ds - j) M2 X2). change (rnd64 (ds - j)) with (sjE j rate d) in E.
+  set (e := sjE j rate d) in *.
+  set (M3 := (M2 * (1 + / 9007199254740992) + eta) / 16).
+  assert (X3 : Rabs (/ 16 * e) <= M3) by (apply Rabs_le; unfold M3, M2 in *; lra).
+  assert (Q := rnd64_relabs (/ 16 * e) M3 X3). change (rnd64 (/ 16 * e)) with (sjQ j rate d) in Q.
+  set (q := sjQ j rate d) in *.
+  set (M4 := j + M3 * (1 + / 9007199254740992) + eta).
+  assert (X4 : Rabs (j + q) <= M4) by (apply Rabs_le; unfold M4, M3, M2 in *; lra).
+  assert (J := rnd64_relabs (j + q) M4 X4). change (rnd64 (j + q)) with (sjitR j rate d) in J.
+  set (J' := sjitR j rate d) in *.
+  split. { apply Rle_trans with (1 := X2). unfold M2. lra. }
+  split. { apply Rle_trans with (1 := X3). unfold M3, M2. lra. }
+  split. { apply Rle_trans with (1 := X4). unfold M4, M3, M2. lra. }
+  split; [split|].
+  - assert (Nj : rnd64 (- j) = - j) by (rewrite rnd64_opp, Hjr; reflexivity).
+    assert (Ee : - j <= e).
+    { rewrite <- Nj. change e with (rnd64 (ds - j)). apply rnd64_mono. lra. }
+    assert (Qq : - j <= q).
+    { rewrite <- Nj. change q with (rnd64 (/ 16 * e)). apply rnd64_mono. lra. }
+    change J' with (rnd64 (j + q)). apply r_nonneg. lra.
+  - rewrite <- rnd64_2p54. change J' with (rnd64 (j + q)). apply rnd64_mono.
+    destruct (Rle_or_lt ds j) as [C|C].
+    + assert (Ee : e <= 0).
+      { rewrite <- (rnd64_int 0) by lia. change e with (rnd64 (ds - j)). apply rnd64_mono. lra. }
+      assert (Qq : q <= 0).
+      { rewrite <- (rnd64_int 0) by lia. change q with (rnd64 (/ 16 * e)). apply rnd64_mono. lra. }
+      lra.
+    + apply Rle_trans with M4. apply Rabs_le_inv in X4. lra. unfold M4, M3, M2. lra.
+  - apply Rabs_le. unfold M4, M3, M2 in *. lra.
+Qed.
+
+Lemma sk_jitter_link rate j d : (0 <= d < 9007199254740992)%Z -> (0 < rate < 9007199254740992)%Z ->
+  fin j -> 0 <= FR j <= 18014398509481984 ->
+  fin (sk_jitter rate j d) /\ FR (sk_jitter rate j d) = sjitR (FR j) rate d.
+Proof.
+  intros Hd Hr Fj Hj.
+  destruct (sjit_analysis (FR j) rate d Hd Hr Hj (rnd64_FR j)) as (B2 & B3 & B4 & _). cbv zeta in B2.
+  destruct (quot_link d rate Hd Hr) as [F1 V1].
+  unfold sk_jitter. cbv zeta.
+  set (ds := (f64_of_Z d / f64_of_Z rate)%float) in *.
+  destruct (sub_link ds j 70 F1 Fj) as [F2 V2].
+  { lia. } { rewrite V1, bpow70. apply Rle_trans with (1 := B2). lra. }
+  rewrite V1 in V2. fold (sjE (FR j) rate d) in V2.
+  destruct (mul_link 0.0625%float (ds - j)%float 70 fin_c16th F2) as [F3 V3].
+  { lia. } { rewrite V2, FR_c16th, bpow70. apply Rle_trans with (1 := B3). lra. }
+  rewrite V2, FR_c16th in V3. fold (sjQ (FR j) rate d) in V3.
+  destruct (add_link j (0.0625 * (ds - j))%float 70 Fj F3) as [F4 V4].
+  { lia. } { rewrite V3, bpow70. apply Rle_trans with (1 := B4). lra. }
+  rewrite V3 in V4. fold (sjitR (FR j) rate d) in V4.
+  split; assumption.
+Qed.
+
+Theorem sk_jitter_step rate j d : (0 <= d < 9007199254740992)%Z -> (0 < rate < 9007199254740992)%Z ->
+  fin j -> 0 <= FR j <= 18014398509481984 ->
+  let J' := sk_jitter rate j d in
+  fin J' /\ 0 <= FR J' <= 18014398509481984 /\
+  Rabs (FR J' - (FR j + (IZR d / IZR rate - FR j) / 16))
+    <= / 4503599627370496 * (IZR d / IZR rate + FR j) + bpow radix2 (-1072).
+Proof.
+  intros Hd Hr Fj Hj. cbv zeta.
+  destruct (sk_jitter_link rate j d Hd Hr Fj Hj) as [F V].
+  destruct (sjit_analysis (FR j) rate d Hd Hr Hj (rnd64_FR j)) as (_ & _ & _ & I & A).
+  cbv zeta in A. rewrite V. split; [exact F|]. split; [exact I|].
+  replace (bpow radix2 (-1072)) with (4 * eta). exact A.
+  unfold eta. change (-1072)%Z with (2 + -1074)%Z. rewrite bpow_plus. change (bpow radix2 2) with 4. ring.
 Qed.
